@@ -392,11 +392,47 @@ class Super:
                     isinstance(a.targets[0], ast.Name):
                 flags = self.cfgs.get(sn.func).flag_names
                 nm = a.targets[0].id
-                if nm in flags:
+                if nm in flags or (
+                        nm in self._partial_flags(sn.func) and (
+                            a.value.value is None or
+                            a.value.value is True or
+                            a.value.value is False)):
                     val = dict(val)
                     # True / False / None (a tri-state result variable)
                     val[(id(sn.frame), nm)] = a.value.value
+                    return val
+        if sn.kind == 'out' and sn.cn is not None and sn.cn.defs and \
+                sn.func is not None:
+            # any other binding of a sometimes-constant local makes its
+            # value unknown again
+            pf = self._partial_flags(sn.func)
+            kill = [(id(sn.frame), nm) for nm in sn.cn.defs if nm in pf]
+            if any(k in val for k in kill):
+                val = {k: v for k, v in val.items() if k not in kill}
         return val
+
+    def _partial_flags(self, func):
+        """Locals (not parameters, not the full flags) that are assigned
+        None/True/False somewhere and something else elsewhere: tracked
+        while the constant is what they hold (``x = None ... if x is None``
+        after an inlined helper that returned (None, verdict))."""
+        memo = self.__dict__.setdefault('_pf_memo', {})
+        if func in memo:
+            return memo[func]
+        flags = self.cfgs.get(func).flag_names
+        params = set(func.all_param_names())
+        out = set()
+        for n in ast.walk(func.node):
+            if isinstance(n, ast.Assign) and len(n.targets) == 1 and \
+                    isinstance(n.targets[0], ast.Name) and isinstance(
+                        n.value, ast.Constant) and (
+                        n.value.value is None or n.value.value is True or
+                        n.value.value is False):
+                nm = n.targets[0].id
+                if nm not in flags and nm not in params:
+                    out.add(nm)
+        memo[func] = out
+        return out
 
     def _flag_blocks(self, sn, lab, val):
         """The branch edge contradicts the tracked value of a boolean local."""
